@@ -12,9 +12,17 @@
 //!   uwa <kind> <add_new> <remove_missing> <present01> -> <rec|act|none|other:..|ERR|PANIC> other=<..>
 //!   apd <kind> <add_new> <remove_missing> <present01> -> ... other=<..> orig=<..>   (orig: the input store is not modified)
 //!   chg <kind> -> <true|false>
+//!
+//! It also EXECUTES `GlobDep::diff_superficial` / `GlobDep::diff_thorough` (pipeline/src/pipeline/deps/glob.rs)
+//! over (paths digest same/different) x (metadata digest same/different) x (content digest same / different /
+//! missing in the record); record and actual are deserialised from JSON, so every digest field can be chosen:
+//!   globsup <paths_same> <meta_same> -> <kind|PANIC>
+//!   globtho <paths_same> <meta_same> <same|diff|norec> -> <kind|PANIC>
 use std::panic::{catch_unwind, AssertUnwindSafe};
 
-use xvc_core::{apply_diff, update_with_actual, Diff};
+use xvc_core::types::diff::Diffable;
+use xvc_core::{apply_diff, update_with_actual, Diff, HashAlgorithm, XvcDigest};
+use xvc_pipeline::deps::glob::GlobDep;
 use xvc_ecs::{HStore, XvcEntity, XvcStore};
 
 const KINDS: [&str; 5] = ["Identical", "RecordMissing", "ActualMissing", "Different", "Skipped"];
@@ -38,7 +46,56 @@ fn show(s: &XvcStore<String>, e: &XvcEntity) -> String {
     }
 }
 
+fn kind_of<T: xvc_ecs::Storable>(d: &Diff<T>) -> &'static str {
+    match d {
+        Diff::Identical => "Identical",
+        Diff::RecordMissing { .. } => "RecordMissing",
+        Diff::ActualMissing { .. } => "ActualMissing",
+        Diff::Different { .. } => "Different",
+        Diff::Skipped => "Skipped",
+    }
+}
+
+fn digest_json(tag: &str) -> serde_json::Value {
+    serde_json::to_value(XvcDigest::from_bytes(tag.as_bytes(), HashAlgorithm::Blake3)).unwrap()
+}
+
+fn glob_dep(paths: &str, meta: &str, content: Option<&str>) -> GlobDep {
+    let v = serde_json::json!({
+        "glob": "g/*.dat",
+        "xvc_paths_digest": digest_json(paths),
+        "xvc_metadata_digest": digest_json(meta),
+        "content_digest": content.map(digest_json),
+    });
+    serde_json::from_value(v).expect("GlobDep no longer deserialises from its four fields")
+}
+
+fn glob_tables() {
+    for paths_same in [false, true] {
+        for meta_same in [false, true] {
+            let rec = |c: Option<&str>| glob_dep("p0", "m0", c);
+            let act = |c: Option<&str>| {
+                glob_dep(if paths_same { "p0" } else { "p1" }, if meta_same { "m0" } else { "m1" }, c)
+            };
+            let r = catch_unwind(AssertUnwindSafe(|| {
+                kind_of(&GlobDep::diff_superficial(&rec(Some("c0")), &act(None))).to_string()
+            }))
+            .unwrap_or_else(|_| "PANIC".to_string());
+            println!("globsup {} {} -> {}", paths_same, meta_same, r);
+            for (name, rc, ac) in [("same", Some("c0"), Some("c0")), ("diff", Some("c0"), Some("c1")), ("norec", None, Some("c0"))] {
+                let r = catch_unwind(AssertUnwindSafe(|| {
+                    kind_of(&GlobDep::diff_thorough(&rec(rc), &act(ac))).to_string()
+                }))
+                .unwrap_or_else(|_| "PANIC".to_string());
+                println!("globtho {} {} {} -> {}", paths_same, meta_same, name, r);
+            }
+        }
+    }
+}
+
 fn main() {
+    std::panic::set_hook(Box::new(|_| {}));
+    glob_tables();
     let e = XvcEntity::from((1u64, 7u64));
     let o = XvcEntity::from((2u64, 7u64));
     for kind in KINDS {
